@@ -11,6 +11,7 @@ package c14
 import (
 	"bufio"
 	"bytes"
+	"errors"
 	"fmt"
 	"io"
 	"net/url"
@@ -431,7 +432,7 @@ func TestRoundTrip(t *testing.T) {
 	evid.Rule(ruleText)
 	evid.Assume("net/url (standard library) is trusted to print and parse URLs; its reading of every generated URL is checked against the grammar's intent")
 	evid.Assume("on data channels a frame carries an RTP packet (ipchub parses the RTP fixed header in ReadPacket); frames on a channel that was never SETUP are outside the statement")
-	evid.Checks(6000, 120000)
+	evid.Checks(20000, 400000)
 	t.Run("request", func(t *testing.T) {
 		t.Parallel()
 		rapid.Check(t, propRequest)
@@ -580,6 +581,8 @@ type recvResult struct {
 	calls int
 }
 
+var errDelivery = errors.New("one receive call returned nil but did not deliver exactly one item")
+
 func runReceive(r *bufio.Reader, ch []int, maxCalls int) recvResult {
 	var res recvResult
 	h := srtsp.VerifHandler{
@@ -594,7 +597,7 @@ func runReceive(r *bufio.Reader, ch []int, maxCalls int) recvResult {
 			return res
 		}
 		if len(res.order) != before+1 {
-			res.err = fmt.Errorf("harness: one receive call delivered %d items", len(res.order)-before)
+			res.err = fmt.Errorf("%w: %d", errDelivery, len(res.order)-before)
 			return res
 		}
 	}
@@ -716,4 +719,44 @@ func propSequence(t *rapid.T) {
 			evid.Sample("sequence-nontrivial", c)
 		}
 	}
+}
+
+// TestEveryDefinedStatus enumerates every status code ipchub or RFC 2326 §7.1.1
+// defines, in the three ways the server fills Response.Status ("" = default
+// phrase, phrase only, "<code> <phrase>"), through Write -> reference parser and
+// Write -> ReadResponse.
+func TestEveryDefinedStatus(t *testing.T) {
+	n := 0
+	for code := 100; code <= 999; code++ {
+		_, inRFC := rfcStatus[code]
+		if !inRFC && rtsp.StatusText(code) == "" {
+			continue
+		}
+		n++
+		for form := 0; form < 3; form++ {
+			g := genResp{It: item{Kind: kindResp, Code: code, Reason: rfcStatus[code], H: []hdrLine{{"CSeq", []string{fmt.Sprint(code)}}}}, Default: form == 0}
+			if g.It.Reason == "" {
+				g.It.Reason = "Local Phrase"
+			}
+			e := encChoice{ByIpchub: true, StatusForm: form % 2}
+			wire, msg := encodeResponse(&g, e)
+			c := singleCase{Item: g.It, Enc: e, Wire: wireSample(wire)}
+			if msg != "" {
+				evid.Violation(t, "status-write", c, "status %d form %d: %s", code, form, msg)
+			}
+			r, _ := newReader(wire, dByte, nil)
+			got, err := rtsp.ReadResponse(r)
+			evid.Eval(1)
+			if err != nil {
+				evid.Violation(t, "status-read", c, "status %d form %d: ReadResponse: %v", code, form, err)
+			}
+			if m := checkResponse(g.It, got); m != "" {
+				evid.Violation(t, "status-read", c, "status %d form %d: %s", code, form, m)
+			}
+		}
+	}
+	if n < len(rfcStatus) {
+		t.Fatalf("enumerated %d codes, RFC 2326 defines %d", n, len(rfcStatus))
+	}
+	evid.ClassN("status:defined-codes-enumerated", int64(n))
 }
